@@ -89,6 +89,7 @@ func (m *monitor) onRestart(n *simNode) {
 		}
 		return
 	}
+	m.checkReplayedState(n)
 	if e.Checking("C05") {
 		st, err := n.sstore.Load()
 		if err != nil {
